@@ -199,7 +199,7 @@ def check_version(f, rep):
     rep.floor("R04.1", "greeting parser", len(gp), 1)
     for b in gp:
         n = 0
-        for p in Sym(f).paths(b):
+        for p in pathq.paths(f, b):
             if p.end != "return" or pathq.ret_kind(p) != "Ok":
                 continue
             n += 1
